@@ -239,7 +239,13 @@ def check_state(ctx, imp, store, flavour, topo, script):
     shash = __import__('vlib.core', fromlist=['digest']).digest(pre)
     others_before = {k: v for k, v in canon.store_snapshot(imp)[0].items() if k != gid}
     creation_handles = dict(getattr(topo, '_verif_handles', {}))      # handles returned when the services were created
-    for op in applicable_ops(tm, g):
+    ops = applicable_ops(tm, g)
+    # on a loaded machine the time budget may end in the middle of a state: the operations that go through kept handles come
+    # first, the rest in a shuffled order (not always the same prefix - nodes, components, ... - of every state)
+    ctx.rng.shuffle(ops)
+    ops.sort(key=lambda o: 0 if (o.get('cached') not in (None, False) or o['op'] in ('remove_child_interface', 'unpeer', 'remove_node_service'))
+             else 1)
+    for op in ops:
         if ctx.out_of_time():
             break
         exp = predict(tm, op)
